@@ -288,3 +288,25 @@ def pmap(fn, items, chunksize=8):
     ctx = mp.get_context("fork")
     with ctx.Pool(min(NCPU, 16)) as pool:
         return pool.map(fn, items, chunksize=chunksize)
+
+
+def tmap(fn, items, n=None):
+    """thread pool map (for jobs that wait on subprocesses)."""
+    from multiprocessing.pool import ThreadPool
+
+    with ThreadPool(n or min(NCPU, 16)) as pool:
+        return pool.map(fn, list(items), chunksize=1)
+
+
+def validate_log(module, cfg, events, wd, env=None, timeout=3600):
+    """One multi-step trace: the spec consumes the event log step by step and prints a single
+    verdict line "V 1 <verdict>".  Returns (verdict, states, transitions)."""
+    path = os.path.join(wd, "log-%s.ndjson" % module)
+    write_ndjson(path, events)
+    e = dict(env or {})
+    e["TRACES"] = path
+    r = tlc(module, cfg, wd, env=e, timeout=timeout, workers=1)
+    vs = r.printed("V")
+    if len(vs) != 1:
+        raise MachineryError("%s: expected one verdict, got %r" % (module, vs[:3]))
+    return vs[0].partition(" ")[2], r.distinct, r.generated
